@@ -42,6 +42,7 @@
 From ASModel Require Import Base State Orderings_gen Step Run Progress Hist Local Inv InvTl InvProto InvStep Sum StepCases.
 From ASModel Require Import GenDefs Gen1 Gen2 Gen EnvDefs Env4 Env AccDefs Acc1 Acc2 Acc3 Acc4 Acc5 Acc6 Acc7 Acc.
 From ASModel Require Import ProtDefs Prot1 Prot11 Prot16 Prot Typed LinDefs Lin2 Lin Safe1 Safe2 Safe7 Safe8 Safe Main GenLen ProgWF1 ProgWF RunOKEx.
+From ASModel Require Import Stale StaleInv.
 
 Theorem C01_dec : forall s a,
   match heap s a with
@@ -168,3 +169,27 @@ Print Assumptions C01_master_invariant.
 Print Assumptions C01_no_use_after_free_len.
 Print Assumptions C01_gen_bound_from_length.
 Print Assumptions C01_no_use_after_free_static.
+
+(** ** The Relaxed first read of the fast path may be stale.
+
+    [Stale.step_stale] is [step] except that the first read of the fast path ([LA1], the
+    `ptr.load(Relaxed)` of `HybridStrategy::load` before the debt is published) may be answered
+    with ANY non-null value the schedule chooses (choice [x >= 2] means value [x - 2]) - in
+    particular one that was replaced and destroyed long ago.  [RunOKS] is [RunOK] for such runs
+    (plus: the chosen value is not null).  No run faults and no count access finds its object
+    destroyed: the confirming read after the debt is published is what protects, not the first. *)
+Theorem C01_no_use_after_free_stale cf inits progs sched :
+  RunOKS cf inits progs sched ->
+  NoFault (run_state_stale cf (init_state inits progs) sched) /\
+  forall te, In te (snd (run_stale cf (init_state inits progs) sched)) ->
+    forall a, ~ In (EvFault (FDeadInc a)) (snd te) /\ ~ In (EvFault (FDeadDec a)) (snd te).
+Proof. exact (StaleInv6.C01_no_use_after_free_stale cf inits progs sched). Qed.
+
+(** Non-vacuity: a concrete run in which the first read returns a value that the writer has
+    already replaced and destroyed; the reader publishes the debt, withdraws it at the confirming
+    read and loads the current value. *)
+Theorem C01_stale_scope_inhabited : RunOKS sx_cf sx_inits sx_progs sx_sched.
+Proof. exact RunOKS_example. Qed.
+
+Print Assumptions C01_no_use_after_free_stale.
+Print Assumptions C01_stale_scope_inhabited.
